@@ -88,7 +88,7 @@ impl EndS {
             r is Ok ==> final(self).has_handle@, r is Err ==> final(self).has_handle == old(self).has_handle,
     { unimplemented!() }
     /// exchange_attach(is_reattaching): Link::send_attach (unit LINK, [C13.link.attach-only-when-unattached]: an attach is written only from Unattached / Detached / DetachSent / AttachReceived and with a handle) and then
-    /// the wait for the peer's attach. ASSUMED about the wait: it takes the peer's attach off the channel, a detach instead of it fails the exchange
+    /// the wait for the peer's attach. About the wait (under contract in unit LINKEXCH: exchange_attach of both link ends): it takes one frame off the channel, the peer's attach; any other frame fails the exchange
     #[verifier::external_body]
     pub fn exchange_attach(&mut self, is_reattaching: bool) -> (r: Result<AttachExchangeS, AttachErrorS>)
         ensures
@@ -99,7 +99,7 @@ impl EndS {
             final(self).attaches@ == old(self).attaches@ || final(self).attaches@ == old(self).attaches@ + 1,
             r is Ok ==> final(self).attaches@ == old(self).attaches@ + 1 && final(self).incoming.errs@ == old(self).incoming.errs@,
     { unimplemented!() }
-    /// Link::handle_attach_error: may answer a refused attach with a detach of its own; returns the error to report. ASSUMED: it keeps what it is given unless an attach had been written
+    /// Link::handle_attach_error: may answer a refused attach with a detach of its own; returns the error to report (under contract in unit LINKEXCH: at most one detach, a closing one, is written; errors that mean the session or the peer went away are kept as they are)
     #[verifier::external_body]
     pub fn handle_attach_error(&mut self, e: AttachErrorS) -> (r: AttachErrorS)
         ensures final(self).attaches == old(self).attaches, final(self).incoming.got@.len() >= old(self).incoming.got@.len(), final(self).failures@ >= old(self).failures@,
